@@ -34,6 +34,7 @@ type Engine struct {
 	prog  *ssa.Program
 	pkgs  map[string]*ssa.Package // by import path
 	stubs map[string]*ssa.Function
+	stubTags map[string]string
 
 	unwind          int
 	maxSteps        int64
@@ -44,6 +45,8 @@ type Engine struct {
 	xsolvers        []string
 	verbose         bool
 	lockset         *locksetState
+	noFallback      bool
+	fallbackTimeoutS int
 
 	mu        sync.Mutex
 	funcsSeen map[*ssa.Function]int64
@@ -139,7 +142,7 @@ func overlayFiles() map[string]string {
 	return m
 }
 
-var stubRe = regexp.MustCompile(`(?m)^//gosym:stub\s+(\S+)\s*=\s*(\S+)\s*$`)
+var stubRe = regexp.MustCompile(`(?m)^//gosym:stub\s+(\S+)\s*=\s*(\S+)(?:\s+if\s+(\S+))?\s*$`)
 
 func goEnv() []string {
 	env := os.Environ()
@@ -151,7 +154,7 @@ func loadEngine(pkgRels []string) *Engine {
 	t0 := time.Now()
 	ov := overlayFiles()
 	overlay := map[string][]byte{}
-	type stubDecl struct{ target, fn, file string }
+	type stubDecl struct{ target, fn, file, tag string }
 	var stubDecls []stubDecl
 	for virt, real := range ov {
 		b, err := os.ReadFile(real)
@@ -160,7 +163,7 @@ func loadEngine(pkgRels []string) *Engine {
 		}
 		overlay[virt] = b
 		for _, m := range stubRe.FindAllStringSubmatch(string(b), -1) {
-			stubDecls = append(stubDecls, stubDecl{m[1], m[2], virt})
+			stubDecls = append(stubDecls, stubDecl{m[1], m[2], virt, m[3]})
 		}
 	}
 	cfg := &packages.Config{
@@ -194,12 +197,14 @@ func loadEngine(pkgRels []string) *Engine {
 		prog:            prog,
 		pkgs:            map[string]*ssa.Package{},
 		stubs:           map[string]*ssa.Function{},
+		stubTags:        map[string]string{},
 		funcsSeen:       map[*ssa.Function]int64{},
 		unwind:          64,
 		maxSteps:        20_000_000,
 		maxPaths:        2_000_000,
 		solverBin:       "/usr/bin/z3",
-		solverTimeoutMs: 30000,
+		solverTimeoutMs: 10000,
+		fallbackTimeoutS: 120,
 		xsolvers:        []string{"z3-new", "cvc5"},
 	}
 	for _, p := range prog.AllPackages() {
@@ -222,6 +227,7 @@ func loadEngine(pkgRels []string) *Engine {
 			fatal(2, "stub function %s not found in %s", d.fn, rel)
 		}
 		e.stubs[d.target] = fn
+		e.stubTags[d.target] = d.tag
 	}
 	// known findings
 	if b, err := os.ReadFile(filepath.Join(verifDir, "known_findings.json")); err == nil {
@@ -250,6 +256,7 @@ type harnessReport struct {
 	Known      map[string]int64       `json:"known_findings,omitempty"`
 	Undecided  []string               `json:"undecided,omitempty"`
 	Inexact    int64                  `json:"paths_with_unknown_feasibility"`
+	Fallbacks  map[string]int64       `json:"fallback_answers,omitempty"`
 	Steps      int64                  `json:"ssa_instructions_executed"`
 	MaxDepth   int                    `json:"max_decision_depth"`
 	WallS      float64                `json:"wall_s"`
@@ -387,7 +394,7 @@ func cmdCheck(args []string) int {
 		rep := harnessReport{
 			Name: h.Func, Pkg: h.Pkg, Params: params, Unwind: eng.unwind, Paths: run.paths, Outcomes: run.aborts,
 			Asserts: run.asserts, Covers: run.covers, Known: run.known, Undecided: run.undecided,
-			Inexact: run.inexact, Steps: run.steps, MaxDepth: run.maxDepth, WallS: run.wall.Seconds(),
+			Inexact: run.inexact, Fallbacks: run.fallbacks, Steps: run.steps, MaxDepth: run.maxDepth, WallS: run.wall.Seconds(),
 			NativeRepl: h.Native, Note: h.Note,
 		}
 		reports = append(reports, rep)
@@ -511,6 +518,11 @@ func cmdCheck(args []string) int {
 			},
 			"stubs":       spec.Stubs,
 			"load_time_s": eng.loadTime.Seconds(),
+			"fallback_portfolio": map[string]interface{}{
+				"queries": atomic.LoadInt64(&fbStats.Tried), "unsat": atomic.LoadInt64(&fbStats.Unsat), "sat": atomic.LoadInt64(&fbStats.Sat),
+				"unknown": atomic.LoadInt64(&fbStats.Unknown), "time_s": float64(atomic.LoadInt64(&fbStats.Ns)) / 1e9,
+				"note": "queries the incremental z3 answered unknown, re-run one-shot on z3 4.8.12, z3 5.1 and cvc5 (first decisive answer)",
+			},
 			"broken":      broken,
 			"known_findings_reported": knownSeen,
 		},
